@@ -52,7 +52,7 @@ Definition step (s : st) (r : list Z) : option st :=
   else Some s.
 
 Definition monitor (i : ops) (o : outs) : option Z :=
-  match run_from step 0 {| nclient_out := param i 9 1 + param i 10 0; zero_rtt := 0 <? param i 44 0;
+  match run_from step 0 {| nclient_out := if param i 80 0 =? 1 then 0 else param i 9 1 + param i 10 0; zero_rtt := 0 <? param i 44 0;
                            closer := param i 19 0; ok_end := false; closed := []; slow_reader := 0 <? param i 75 0 |} o with
   | (_, Some k) => Some k
   | (s, None) => if ok_end s then None else Some (-1 + Z.of_nat (length o))
